@@ -117,7 +117,8 @@ impl Visitor for BadStringEscapeVisitor {
                     let start = value_start + captures.get(1).unwrap().start();
 
                     match &captures[1] {
-                        "a" | "b" | "f" | "n" | "r" | "t" | "v" | "\\" => {},
+                        // `\` before a line break continues the string; in a CRLF file the break starts with `\r`
+                        "a" | "b" | "f" | "n" | "r" | "t" | "v" | "\\" | "\r" => {},
                         "0" | "1" | "2" | "3" | "4" | "5" | "6" | "7" | "8" | "9" => {
                             if captures[2].len() > 1 {
                                 let hundreds = captures[1].parse::<u16>().unwrap_or(0) * 100;
